@@ -23,6 +23,7 @@ type Pipe struct {
 	Window     int    // 0 = unbounded, else max unconsumed bytes before Write blocks
 	OutErr     error  // transport write failure
 	Closed     bool   // connection side closed
+	ClosedAt   int64  // virtual time of the first Close
 	NClose     int
 	ShortReads bool // offer "deliver 1 byte" as an environment deviation
 
@@ -129,6 +130,9 @@ func (p *Pipe) Close() error {
 	vs.Point(&vs.Op{Desc: "pipe.Close", Ready: func() []int { return []int{0} }, Fire: func(int) {
 		vs.RaceAcquire(p.RObj())
 		vs.RaceAcquire(p.WObj())
+		if !p.Closed {
+			p.ClosedAt = vs.W.Now
+		}
 		p.Closed = true
 		p.NClose++
 		vs.RaceRelease(p.RObj())
